@@ -300,11 +300,13 @@ def existsAnywhere (s : State) (gn : String) : Bool :=
     | some l => inLayer l gn
 
 /-- the stamp recorded for a file that is being scheduled for deletion (F9 fix): the stamp of the
-loaded glyph if it carries one, else the state of the file as the bound glyph set sees it -/
-def schedStamp (s : State) (l : MLayer) (b : GS) (gn : String) : Except Err (Option File) :=
+loaded glyph if it carries one, else the state of the file as the bound glyph set sees it; when the
+file cannot be read (the glyph set belongs to a reader that was closed) there is no state to record
+and the deletion works all the same -/
+def schedStamp (s : State) (l : MLayer) (b : GS) (gn : String) : Option File :=
   match (AL.get? l.glyphs gn).bind (·.stamp) with
-  | some f => .ok (some f)
-  | none => if !b.alive then .error .filesystemClosed else .ok (glifOf (view s) b.lname gn)
+  | some f => some f
+  | none => if !b.alive then none else glifOf (view s) b.lname gn
 
 /-- the end of `Layer.__delitem__`: the font's glyph-order callback reads the lib when the name is
 gone from every layer -/
@@ -324,10 +326,36 @@ def delGlyph (s : State) (ln gn : String) : State × Option Err :=
       | none => (afterDelete (setLayer s ln l1) gn, none)
       | some b =>
         if gn ∈ b.contents then
-          match schedStamp s l b gn with
-          | .ok st => (afterDelete (setLayer s ln { l1 with sched := AL.set l1.sched gn st }) gn, none)
-          | .error e => (setLayer s ln l1, some e)
+          (afterDelete (setLayer s ln { l1 with sched := AL.set l1.sched gn (schedStamp s l b gn) }) gn, none)
         else (afterDelete (setLayer s ln l1) gn, none)
+
+/-- the schedule after `_deleteGlyph(old)`: the name is scheduled for deletion, with the stamp of its
+file, when the bound glyph set lists it -/
+def schedAfterDelete (s : State) (l : MLayer) (gn : String) : List (String × Option File) :=
+  match l.gs with
+  | none => l.sched
+  | some b => if gn ∈ b.contents then AL.set l.sched gn (schedStamp s l b gn) else l.sched
+
+/-- `layer[old].name = new` (`Glyph._set_name` → `Layer._glyphNameChange`, after fix C05-r3-1).  The
+glyph is read first if it was not loaded.  The old name leaves the keys and — when the bound glyph
+set lists it — is scheduled for deletion with the stamp of its file.  The glyph object moves to the
+new name (replacing whatever the layer held there; a pending deletion of that name is dropped),
+dirty, and carries no stamp any more: it has neither been read from nor written to a file of its
+new name, so the new name exists in memory only until the next save.  The font's glyph-order
+callback reads the lib. -/
+def renameGlyph (s : State) (ln old new : String) : State × Option Err :=
+  match getGlyph s ln old with
+  | .error e => (s, some e)
+  | .ok (s1, g) =>
+    if old = new then (s1, none)
+    else
+      match getLayer s1 ln with
+      | none => (s1, some .keyError)
+      | some l =>
+        let l' := { l with glyphs := AL.set (AL.erase l.glyphs old) new ⟨g.value, true, none⟩
+                           keys := setAdd (setDel l.keys old) new
+                           sched := AL.erase (schedAfterDelete s1 l old) new }
+        (loadPart (setLayer s1 ln l') .lib, none)
 
 /-! ## The layer set -/
 
@@ -1075,6 +1103,7 @@ inductive Op where
   | gnew (ln gn : String)
   | gset (ln gn : String) (v : Blob)
   | gdel (ln gn : String)
+  | grename (ln old new : String)
   | lnew (ln : String)
   | ldel (ln : String)
   | lorder (o : List String)
@@ -1137,6 +1166,7 @@ def step (s : State) : Op → State × Res
   | .gnew ln gn => ofExcept s (newGlyph s ln gn)
   | .gset ln gn v => ofExcept s (setGlyph s ln gn v)
   | .gdel ln gn => ofPair (delGlyph s ln gn)
+  | .grename ln old new => ofPair (renameGlyph s ln old new)
   | .lnew ln => ofExcept s (newLayer s ln)
   | .ldel ln => ofExcept s (delLayer s ln)
   | .lorder o => ofExcept s (setOrder s o)
